@@ -24,16 +24,28 @@ def parseNum (s : String) : Option Nat :=
 def parseSub : String → Option Bool
   | "o" => some true | "e" => some false | _ => none
 
+/-- queue entries with an optional repeat count `vxN` (1 ≤ N ≤ 500). -/
+def expandReps (s : String) : Option (List String) :=
+  (splitList s).foldr (fun x acc => do
+    let rest ← acc
+    match x.splitOn "x" with
+    | [v] => pure (v :: rest)
+    | [v, c] =>
+      match c.toNat? with
+      | some n => if n ≥ 1 && n ≤ 500 && toString n = c && v ≠ "" then pure (List.replicate n v ++ rest) else none
+      | none => none
+    | _ => none) (some [])
+
 def parseWorld (fs : List String) : Option World :=
   match fs with
   | [r, a, h, e, l, s, f] => do
-    let r ← (splitList r).mapM parseAns43
-    let a ← (splitList a).mapM parseAns43
-    let h ← (splitList h).mapM parseNumOrE
-    let e ← (splitList e).mapM parseNumOrE
-    let l ← (splitList l).mapM parseNumOrE
-    let s ← (splitList s).mapM parseSub
-    let f ← (splitList f).mapM parseNum
+    let r ← (← expandReps r).mapM parseAns43
+    let a ← (← expandReps a).mapM parseAns43
+    let h ← (← expandReps h).mapM parseNumOrE
+    let e ← (← expandReps e).mapM parseNumOrE
+    let l ← (← expandReps l).mapM parseNumOrE
+    let s ← (← expandReps s).mapM parseSub
+    let f ← (← expandReps f).mapM parseNum
     pure ⟨r, a, h, e, l, s, f⟩
   | _ => none
 
